@@ -49,6 +49,42 @@ from solvor.types import Result, Status
 __all__ = ["Model"]
 
 
+def _is_plain_sum(e) -> bool:
+    """True if e is built from variables, ints and '+' only (what _flatten_sum understands)."""
+    if isinstance(e, (int, IntVar)):
+        return True
+    return isinstance(e, tuple) and e[0] == "add" and _is_plain_sum(e[1]) and _is_plain_sum(e[2])
+
+
+def _expr_vars(e, out: list) -> list:
+    """Collect the distinct variables of an expression tree."""
+    if isinstance(e, IntVar):
+        if not any(v is e for v in out):
+            out.append(e)
+    elif isinstance(e, tuple):
+        for sub in e[1:]:
+            _expr_vars(sub, out)
+    return out
+
+
+def _eval_expr(e, values: dict) -> int:
+    """Evaluate an expression tree under an assignment {name: value}."""
+    if isinstance(e, int):
+        return e
+    if isinstance(e, IntVar):
+        return values[e.name]
+    op, a, b = e[0], _eval_expr(e[1], values), _eval_expr(e[2], values)
+    if op == "add":
+        return a + b
+    if op == "sub":
+        return a - b
+    if op == "rsub":
+        return b - a
+    if op == "mul":
+        return a * b
+    raise ValueError(f"Unknown expression node: {op}")
+
+
 class Expr:
     """Wrapper for expression tuples to support comparison operators."""
 
@@ -406,6 +442,32 @@ class Model:
         """Propagate (left_expr != right_expr) or (left_expr == right_expr)."""
         left_terms, left_const = self._flatten_sum(left)
         right_terms, right_const = self._flatten_sum(right)
+        plain = _is_plain_sum(left) and _is_plain_sum(right)
+
+        if not (plain and len(left_terms) == 1 and len(right_terms) == 1):
+            # General linear shape: no pruning, but never accept a violating assignment
+            variables = _expr_vars(right, _expr_vars(left, []))
+            free = [v for v in variables if len(domains[v.name]) > 1]
+            values = {v.name: next(iter(domains[v.name])) for v in variables if len(domains[v.name]) == 1}
+            if not free:
+                equal = _eval_expr(left, values) == _eval_expr(right, values)
+                return equal != is_ne
+            if len(free) == 1:
+                # Forward checking: left - right is linear in the last free variable, a*v + b
+                v = free[0]
+                values[v.name] = 0
+                b = _eval_expr(left, values) - _eval_expr(right, values)
+                values[v.name] = 1
+                a = _eval_expr(left, values) - _eval_expr(right, values) - b
+                if a == 0:
+                    return (b == 0) != is_ne
+                root = -b // a if b % a == 0 else None
+                if is_ne:
+                    domains[v.name].discard(root)
+                else:
+                    domains[v.name] &= {root}
+                return bool(domains[v.name])
+            return True
 
         if len(left_terms) == 1 and len(right_terms) == 1:
             var1, var2 = left_terms[0], right_terms[0]
